@@ -23,9 +23,20 @@ PROP = dict(
          "build (go build -race) is used in the quick tier too",
     trusted=["Package H: the framed transition system of Model/C09Frames.lean (one step = one critical section of cache/data.go, a pending Set "
              "is a frame) and the call layer of Model/C10.lean (invocation / sections / response per call id) are hand-written; they are tied to "
-             "the Go code (a) by Package L's regenerated IR: sections_expected says the lock...unlock regions of the five methods are the "
-             "sections the model uses, (b) by the C10.sched differential scripts: real goroutines suspended exactly between two sections, "
+             "the Go code (a) by Package L's regenerated IR: sections_expected + profile_sound + cache_single_section say that on EVERY control "
+             "path (through every inlined helper) Get/Del/Clear/Stats take the lock exactly once and Set gives it up mid-call only around an "
+             "OnDelete call, and which locations are touched inside / outside the critical sections: the sections the model uses, (b) by the C10.sched differential scripts: real goroutines suspended exactly between two sections, "
              "every step's result and VerifSnapshot compared with runSched (sampled), (c) by the C09.run scripts of property C09",
+             "Package L translator gen/cachelock.go (trusted, fails loudly outside its subset): go/types resolution; Go evaluation order; the "
+             "location abstraction (usage = sentinel + every item.used link; every other field of item = key/value-like, written only while the "
+             "item is fresh); list functions (name list* or all-*listItem parameters) touch only links (checked syntactically on every run); "
+             "INLINING of helper calls (methods of cache / *item, unexported functions of the package): no recursion and no function values / "
+             "method values / closures / go / defer-of-helpers (all rejected), receiver identity (a callee's receiver or *cache parameter is "
+             "bound only to the caller's own cache variable), a *item parameter denotes the caller's fresh item only when given the single "
+             "variable holding it (no alias of the fresh item can be created: any other use of that variable is rejected), a helper that "
+             "changes the lock/publication state must not share an expression with accesses outside calls (unspecified order), `continue` is "
+             "rewritten structurally (if c {A; continue}; R => if c {A} else {R}); entry points = exported methods of *cache, every other "
+             "function touching cache/item fields must be reached from one (or only from newCache, which runs before sharing)",
              "MEM-1 (DESIGN.md section 3): sync.Mutex gives mutual exclusion and happens-before from Unlock to the next Lock, so a critical "
              "section is an atomic step of the model; sync/atomic operations are atomic; Get's read of val.value after Unlock reads a field "
              "that is never written after the item is published (Package L, no_race)",
@@ -47,7 +58,10 @@ PROP = dict(
                "acceptHist_sound (one direction: accepted => Linearizable; completeness of the search is not proved). "
                "PARTIAL in the sense of DESIGN.md: the proof is about a protocol model at critical-section granularity; that the Go runtime "
                "executes a critical section atomically w.r.t. the others is MEM-1 + Package L (no_race, sections_expected); Go scheduler "
-               "fairness, OnDelete callbacks that never return, panics inside callbacks are outside the model. Package L: see Theorems/C10Lock.lean",
+               "fairness, OnDelete callbacks that never return, panics inside callbacks are outside the model. Package L (all at full strength over the IR extended with inlined helper calls): analyse_sound, Lock.publication_safe, mutual_exclusion, "
+               "Lock.access_modes, no_race, lock_discipline (regenerated), cache_race_free, profile_sound / Lock.profile_access / Lock.one_section "
+               "(the critical-section profile covers every path), sections_expected (regenerated profile = documented profile; a semantic normal "
+               "form, insensitive to helper extraction, defer, early-return and loop/if restructuring), cache_single_section",
     assumptions=["MEM-1 (Go memory model: mutex, atomics) as stated in DESIGN.md section 3",
                  "callers do not modify the key/value slices handed to Set afterwards (the cache stores them without copying)",
                  "size + len(key) + len(val) does not wrap a uint; fewer than 2^31 Gets between two Clears (int32 counters)",
